@@ -263,4 +263,85 @@ theorem ctxOk_step (s s' : St) (e : Ev) (cc cc' : List Nat) (h : CtxOk s cc) (hs
     · cases he
     · exact hnew a c0 cl0 he
 
+
+/-! ## clause: pending `released()` sections belong to entries whose `released()` was called -/
+
+def RunsOk (s : St) (iv : List Nat) : Prop :=
+  ∀ i ∈ s.relRuns, ∃ (c : Call) (k : Nat), s.calls[i]? = some c ∧ c.inv = some k ∧ k ∈ iv
+
+theorem runsOk_step (s s' : St) (e : Ev) (iv iv' : List Nat) (hi : Inv s) (hx : Idx s) (h : RunsOk s iv)
+    (hs : step s e = some s') (hsub : ∀ k, k ∈ iv → k ∈ iv') (hnew : ∀ k, e = .envReleased k → k ∈ iv') :
+    RunsOk s' iv' := by
+  intro i hmem
+  rcases relRuns_frame s s' e hs i hmem with h1 | ⟨k, c, he, hc, hk⟩
+  · obtain ⟨c, k, hc, hk, hkm⟩ := h i h1
+    obtain ⟨c', hc', g, _⟩ := call_persist s s' e hi hx hs i c hc
+    exact ⟨c', k, hc', g k hk, hsub k hkm⟩
+  · obtain ⟨c', hc', g, _⟩ := call_persist s s' e hi hx hs i c hc
+    exact ⟨c', k, hc', g k hk, hnew k he⟩
+
+/-! ## clause: what was delivered (`told`) was stored, to a recording reference that was added -/
+
+def ToldOk (s : St) (told : List (Nat × Nat)) : Prop :=
+  ∀ p ∈ told, (∃ (i : Nat) (c : Call), s.calls[i]? = some c ∧ c.inv = some p.2 ∧ c.stored = true) ∧
+    (∃ pc l f sf t, s.th[p.1]? = some (.ref .rcd pc l f sf t) ∧ pc ≠ .inv)
+
+/-- a reference entry that has been added stays an added entry of the same kind -/
+theorem ref_persist (s s' : St) (e : Ev) (hs : step s e = some s') (r : Nat) (k : CbKind) (pc : Pc)
+    (l f sf : Bool) (t : Option Nat) (h : s.th[r]? = some (.ref k pc l f sf t)) (hpc : pc ≠ .inv) :
+    ∃ pc' l' f' sf' t', s'.th[r]? = some (.ref k pc' l' f' sf' t') ∧ pc' ≠ .inv := by
+  obtain ⟨f1, f2⟩ := th_frame s s' e hs
+  obtain ⟨x', hx'⟩ := f2 r _ h
+  rcases f1 r x' hx' with ⟨x, hx, hst⟩ | ⟨hn, _⟩
+  · rw [h] at hx; cases hx
+    cases x' with
+    | rel r0 pc0 => simp [ThStep] at hst
+    | ctx c cl pc0 u => simp [ThStep] at hst
+    | ref k' pc' l' f' sf' t' =>
+      simp only [ThStep] at hst
+      obtain ⟨rfl, hpcs, _⟩ := hst
+      refine ⟨pc', l', f', sf', t', hx', ?_⟩
+      rcases hpcs with h1 | ⟨h1, _⟩ | ⟨_, h1, _⟩
+      · rw [h1]; exact hpc
+      · exact absurd h1 hpc
+      · rw [h1]; simp
+  · rw [h] at hn; cases hn
+
+theorem toldOk_step (s s' : St) (e : Ev) (told : List (Nat × Nat)) (hi : Inv s) (hx : Idx s)
+    (h : ToldOk s told) (hs : step s e = some s') : ToldOk s' told := by
+  intro p hp
+  obtain ⟨⟨i, c, hc, hk, hst⟩, ⟨pc, l, f, sf, t, hth, hpc⟩⟩ := h p hp
+  refine ⟨?_, ?_⟩
+  · obtain ⟨f1, f2, _⟩ := calls_frame s s' e hs
+    obtain ⟨c', hc', g, _⟩ := call_persist s s' e hi hx hs i c hc
+    refine ⟨i, c', hc', g _ hk, ?_⟩
+    rcases f1 i c' hc' with ⟨c0, h0, ⟨_, _, _, _, _, _, a7, _⟩⟩ | ⟨hn, _⟩
+    · rw [hc] at h0; cases h0; exact a7 hst
+    · rw [hc] at hn; cases hn
+  · obtain ⟨pc', l', f', sf', t', h1, h2⟩ := ref_persist s s' e hs p.1 .rcd pc l f sf t hth hpc
+    exact ⟨pc', l', f', sf', t', h1, h2⟩
+
+/-! ## clause: an owed delivery is the delivery of the stored result to an added recording reference -/
+
+def VOk (s : St) : Prop :=
+  ∀ (r v er : Nat), CbItem.refcb r true true v er ∈ s.pend.flatten →
+    (∃ i, s.cur = some i) ∧ ∃ pc l f sf t, s.th[r]? = some (.ref .rcd pc l f sf t) ∧ pc ≠ .inv
+
+theorem vOk_step (s s' : St) (e : Ev) (hi : Inv s) (ht' : ThInv s'.th) (h : VOk s)
+    (hs : step s e = some s') : VOk s' := by
+  intro r v er hmem
+  rcases items_frame s s' e hi hs _ hmem with hold | hnew
+  · obtain ⟨⟨i, hcur⟩, pc, l, f, sf, t, hth, hpc⟩ := h r v er hold
+    have hl : isLock e = false := by
+      cases hl : isLock e
+      · rfl
+      · have := lock_free s s' e hs hl; rw [this] at hold; simp at hold
+    refine ⟨⟨i, by rw [(nonlock_frame s s' e hs hl).2.1]; exact hcur⟩, ?_⟩
+    exact ref_persist s s' e hs r .rcd pc l f sf t hth hpc
+  · cases hnew with
+    | deliver r0 k pc f sf t i hth hk hcur =>
+      -- the visible flag of the entry is `k == rcd`
+      rename_i hvis
+      sorry
+
 end UtilModel.RefCount
